@@ -15,7 +15,7 @@ CONSTANTS NCases,   \* number of cases
           MaxC,     \* maximal number of constraints per system
           Groups    \* number of initial states (parallelism)
 
-Seed == atoi(IOEnv.VERIF_SEED)
+EnvSeed == atoi(IOEnv.VERIF_SEED)    \* read once in Init (IOEnv is expensive) and carried in the variable sd
 
 (* Lehmer / Park-Miller minimal standard generator with Schrage's decomposition: every      *)
 (* intermediate value stays below 2^31.                                                     *)
@@ -26,8 +26,8 @@ RECURSIVE Str(_, _, _)
 Str(s, k, acc) == IF k = 0 THEN acc ELSE Str(Nxt(s), k - 1, Append(acc, s))
 
 StreamLen == 320
-Stream(n) ==
-  LET s0 == 1 + (((Seed % 30011) + 30011) % 30011 * 30013 + n * 7) % 2147483646
+Stream(n, Seed) ==
+  LET s0 == 1 + ((((((Seed % 30011) + 30011) % 30011) * 30013) + (n * 7)) % 2147483646)
   IN Str(Nxt(Nxt(Nxt(s0))), StreamLen, <<>>)
 
 (* ---------------------------------------------------------------------------------------- *)
@@ -99,13 +99,16 @@ Con(R, b, nv) ==
   ELSE [k |-> "sum", op |-> Of(R, b + 1, RelOps), xs |-> Leaves(R, b + 3, 1 + Pick(R, b + 2, 3), nv),
         r |-> Expr(R, b + 12, 1, nv)]
 
-\* domain of a variable: an interval inside -3..4, sometimes with a hole: slots b, b+1, b+2
+\* domain of a variable: an interval inside -3..4 (width biased upwards: the larger of two draws),
+\* one time in three with a hole: slots b, b+1, b+2
 DomOf(R, b) ==
-  LET lo == -3 + Pick(R, b, 8)
-      hi == lo + Pick(R, b + 1, 5 - lo)
+  LET lo == -3 + Pick(R, b, 6)
+      sp == 5 - lo
+      w  == Max2(Pick(R, b + 1, sp), (R[b + 1] \div 1024) % sp)
+      hi == lo + w
       iv == lo..hi
       h  == lo + 1 + Pick(R, b + 2, 8)
-  IN IF h < hi /\ Pick(R, b + 2, 3) = 0 THEN iv \ {h} ELSE iv
+  IN IF h < hi /\ (R[b + 2] \div 1024) % 3 = 0 THEN iv \ {h} ELSE iv
 
 Sels == <<"leftmost", "ff", "ffc", "min", "max">>
 Ords == <<"up", "down">>
@@ -118,50 +121,52 @@ GenCase(R, n) ==
       dom |-> [i \in 1..nv |-> DomOf(R, 3 * i)],
       sys |-> [j \in 1..nc |-> Con(R, 30 + (j - 1) * CW, nv)],
       \* the 30 combinations of labeling options are cycled through by the case number
-      opts |-> <<Sels[1 + n % 5], Ords[1 + (n \div 5) % 2], Brs[1 + (n \div 10) % 3]>>,
+      opts |-> <<Sels[1 + (n % 5)], Ords[1 + ((n \div 5) % 2)], Brs[1 + ((n \div 10) % 3)]>>,
       obj |-> [dir |-> Of(R, 12, <<"min", "max">>), e |-> Expr(R, 13, 1, nv)]]
 
 (* ---------------------------------------------------------------------------------------- *)
-VARIABLES phase, g, rs, c
-vars == <<phase, g, rs, c>>
+VARIABLES phase, g, sd, c
+vars == <<phase, g, sd, c>>
 
-Init == phase = "pick" /\ g \in 0..(Groups - 1) /\ rs = <<>> /\ c = <<>>
+Init == phase = "pick" /\ g \in 0..(Groups - 1) /\ sd = EnvSeed /\ c = <<>>
 Next ==
-  /\ phase = "pick" /\ phase' = "case"
+  /\ phase = "pick" /\ phase' = "case" /\ sd' = sd
   /\ g' \in {n \in 1..NCases : n % Groups = g}
-  /\ rs' = Stream(g')
-  /\ c' = GenCase(rs', g')
-
-Sols == LexSolutions(c.sys, c.nv, c.dom)
+  /\ c' = GenCase(Stream(g', sd), g')
 
 (* sanity of the specification itself: the ordered enumeration is the set comprehension *)
 Sane ==
   phase = "case" =>
-    LET ls == Sols
+    LET ls == LexSolutions(c.sys, c.nv, c.dom)
         S  == Solutions(c.sys, c.nv, c.dom)
     IN /\ Len(ls) = Cardinality(S)
        /\ {ls[i] : i \in 1..Len(ls)} = {[i \in 1..c.nv |-> a[i]] : a \in S}
        /\ \A i \in 1..(Len(ls) - 1) :
             \E p \in 1..c.nv : ls[i][p] < ls[i + 1][p] /\ \A q \in 1..(p - 1) : ls[i][q] = ls[i + 1][q]
+       /\ Len(LexAssignments(c.nv, c.dom)) = Cardinality(Assignments(c.nv, c.dom))
 
 RECURSIVE UnionKinds(_, _)
 UnionKinds(sys, j) == IF j > Len(sys) THEN {} ELSE Kinds(sys[j]) \cup UnionKinds(sys, j + 1)
 
 Emit ==
   phase = "case" =>
-    LET ls == Sols
-        A  == Assignments(c.nv, c.dom)
+    LET as == LexAssignments(c.nv, c.dom)
+        ms == [j \in 1..Len(c.sys) |-> HoldsMask(c.sys[j], as)]
+        Ok(a) == \A j \in 1..Len(c.sys) : Holds(c.sys[j], a)
+        ls == SelectSeq(as, Ok)
         ov == [i \in 1..Len(ls) |-> Eval(c.obj.e, ls[i])]
     IN PrintT(ToJson(
          [n |-> c.n, nv |-> c.nv,
           dom |-> [i \in 1..c.nv |-> Sorted(c.dom[i])],
-          sys |-> c.sys, sols |-> ls,
+          sys |-> c.sys,
+          sols |-> ls,                          \* solutions in lexicographic order
+          masks |-> ms,                         \* per constraint: 0/1 over the lexicographic assignments
+          nassign |-> Len(as),
           proj |-> [i \in 1..c.nv |-> Sorted({ls[j][i] : j \in 1..Len(ls)})],
-          nassign |-> Cardinality(A),
-          partial |-> \E a \in A : \E j \in 1..Len(c.sys) : ~AllDefined(c.sys[j], a),
+          partial |-> \E i \in 1..Len(as) : \E j \in 1..Len(c.sys) : ~AllDefined(c.sys[j], as[i]),
           kinds |-> UnionKinds(c.sys, 1),
           opts |-> c.opts,
           obj |-> c.obj,
-          objdef |-> \A i \in 1..Len(ls) : ov[i].ok,
+          objdef |-> \A i \in 1..Len(as) : Eval(c.obj.e, as[i]).ok,
           objv |-> [i \in 1..Len(ls) |-> ov[i].v]]))
 =============================================================================
